@@ -546,8 +546,7 @@ func runC03(c *Ctx) {
 		c.Saw(filterFn)
 		okF := false
 		for _, r := range liveReturns(filterFn) {
-			if cv, ok := r.Results[0].(*ssa.Call); ok && calleeName(cv) == "strings.Contains" {
-				sub := cv.Call.Args[1]
+			if hay, sub, pol, ok := containsTest(r.Results[0]); ok && pol {
 				if u, ok := sub.(*ssa.UnOp); ok && u.Op == token.MUL {
 					if fvar, ok := u.X.(*ssa.FreeVar); ok && filterEnv[fvar] != nil {
 						sub = filterEnv[fvar] // the captured cell's one value
@@ -556,7 +555,7 @@ func runC03(c *Ctx) {
 					sub = filterEnv[fvar]
 				}
 				k, isK := strConst(sub)
-				okF = isK && k == name && w.Expr(cv.Call.Args[0]) == "p0.Comment"
+				okF = isK && k == name && w.Expr(hay) == "p0.Comment"
 			}
 		}
 		c.Check(okF, "R3.refresh", hn+"|filter = comment contains the handler name (case-sensitive)", w.FnPos(filterFn), "strings.Contains(key.Comment, HandlerName)", "the refresh filter is not a case-sensitive substring test of the comment against the handler name (near-miss comments would be removed)")
